@@ -433,3 +433,50 @@ def run(ctx):
 
     rule_r6(ctx)
     ctx.rules["C11-R6"]["decides"] = "(shared with C11, here C10-R7) a Content-Length computed by urllib3 is len()/nbytes of the very object written: a shorter declared length lets the surplus bytes be parsed as a second request (smuggling) - " + ctx.rules["C11-R6"]["decides"]
+
+
+# ---------------------------------------------------------------------------- R8 the URL host cannot carry a line break to the proxy (F27)
+_run_base10 = run
+
+
+def run(ctx):  # noqa: F811
+    _run_base10(ctx)
+    m, fold = ctx.model, ctx.fold
+    URLM = "urllib3.util.url"
+    R8 = ctx.rule("C10-R8", "the host of a URL reaches start lines that http.client does not validate (the CONNECT line written for a tunnelling proxy): the host alternatives of the URL grammar admit no CR, LF, NUL or SP, "
+                  "or the tunnel host is validated before set_tunnel", "E7 character sets of the host group of _HOST_PORT_RE + E8 validators on the path to set_tunnel")
+    hpr = fold.need(URLM, "_HOST_PORT_RE")
+    hpp = rx.parse(hpr.pattern, hpr.flags)
+    gp = rx.groups(hpp)
+    host_group = gp.get(min(gp)) if gp else None
+    if host_group is None:
+        raise AnalysisError("_HOST_PORT_RE has no host group")
+    chars = rx.any_chars(host_group, dotall=bool(hpr.flags & re.DOTALL))
+    hostile = sorted(c for c in ("\r", "\n", "\x00", " ", "\t") if c in chars)
+    # a validator between the parse and the CONNECT line: on every row of HTTPConnection.set_tunnel that reaches the stdlib's
+    # set_tunnel, a pattern covering the hostile characters was searched in the host and did not match
+    from ..rows import GenRule, effect_rows
+    CNM = "urllib3.connection"
+    st_ = m.method(f"{CNM}.HTTPConnection", "set_tunnel")
+    validated, why_not = False, "HTTPConnection.set_tunnel not found"
+    if st_ is not None:
+        HOSTP = "p:" + st_.params()[0]
+        rows_ = [r for r in effect_rows(ctx, st_, GenRule(ctx, CNM), f"{CNM}.HTTPConnection") if any(e[1] == "super.set_tunnel" for e in r.events("call"))]
+        ctx.sites(R8, len(rows_), 1, "rows of HTTPConnection.set_tunnel that hand the host to http.client")
+        validated, why_not = bool(rows_), "no row reaches the stdlib's set_tunnel"
+        for r in rows_:
+            covered = set()
+            for k_, v_ in r.st.facts.items():
+                if isinstance(k_, str) and k_.startswith("rx:") and k_.endswith(f"({HOSTP})") and (".search(" in k_) and (v_[1] is True or v_[0] is False):
+                    name_ = k_[3:].split(".", 1)[0]
+                    try:
+                        rg = fold.need(CNM, name_)
+                        covered |= rx.any_chars(rx.parse(rg.pattern, rg.flags))
+                    except Exception:
+                        pass
+            if not set(hostile) <= covered:
+                validated, why_not = False, f"a row reaches super().set_tunnel({HOSTP}) with {[repr(c) for c in hostile if c not in covered]} not excluded"
+    ok = not hostile or validated
+    ctx.ob(R8, URLM, "the URL host admits no CR / LF / NUL / SP (or the tunnel host is validated before the CONNECT line is written)", ok,
+           "" if ok else f"the host alternatives of _HOST_PORT_RE admit {[repr(c) for c in hostile]} and nothing on the way to set_tunnel() rejects them: through a tunnelling proxy "
+           "`https://a\\r\\nx-injected\\r\\n\\r\\nGET /smuggled\\r\\nb/` writes `CONNECT a\\r\\nx-injected\\r\\n\\r\\nget :443 HTTP/1.1...` to the proxy (http.client validates header values and request targets, not the tunnel host, on this interpreter); " + why_not)
